@@ -118,7 +118,7 @@ def bbox_exact(c):
 IDS = [1, -1, 2, -2, 2 ** 31, -2 ** 31, 2 ** 32, -2 ** 32, 2 ** 63 - 1, -2 ** 63 + 1, 0, 2 ** 31 - 1, 2 ** 62]
 U31 = [0, 1, 2, 2 ** 31 - 1]
 TS = [0, 1, 2 ** 32 - 1, 2 ** 32 - 2, 1700000000]
-CS = [0, 1, 2 ** 32 - 2, 123456]
+CS = [0, 1, 2 ** 32 - 2, 2 ** 32 - 1, 123456]
 STR = [b'', b'a', b'highway', b'name', b'k=v', 'Straße'.encode(), '日本'.encode(), '\U0001f600'.encode(), b' ', b'%,@|', b'x' * 1024,
        ('é' * 512)]
 STR = [s if isinstance(s, bytes) else s.encode() for s in STR]
@@ -146,7 +146,7 @@ def gen_loc(rng):
 def gen_meta(rng, kind):
     ntags = rng.choice([0, 0, 1, 2, 5])
     return {'kind': kind, 'id': pick(rng, IDS, -2 ** 40, 2 ** 40), 'version': pick(rng, U31, 0, 2 ** 31 - 1), 'visible': not rng.chance(1, 4),
-            'timestamp': pick(rng, TS, 0, 2 ** 32 - 1), 'changeset': pick(rng, CS, 0, 2 ** 32 - 2), 'uid': pick(rng, U31, 0, 2 ** 31 - 1),
+            'timestamp': pick(rng, TS, 0, 2 ** 32 - 1), 'changeset': pick(rng, CS, 0, 2 ** 32 - 1), 'uid': pick(rng, U31, 0, 2 ** 31 - 1),
             'user': gen_str(rng), 'tags': [(gen_str(rng), gen_str(rng)) for _ in range(ntags)]}
 
 
@@ -226,7 +226,7 @@ def big_sequence(rng, n, kind):
 
 # ---------------------------------------------------------------- running
 def build(ctx):
-    hbin, err = vlib.build_cpp('pbf', ['pbf.cpp'], flags=['-DOSMIUM_WITH_LZ4'])
+    hbin, err = vlib.build_cpp('pbf', ['pbf.cpp'], flags=['-DOSMIUM_WITH_LZ4', '-fno-access-control'])
     if hbin is None:
         ctx.violation('harness-build:pbf', 'pbf harness does not compile against the current tree: ' + err[-600:],
                       {'kind': 'harness-build', 'stderr': err}, found_input=False)
@@ -341,7 +341,7 @@ def _run(ctx, rng, quick, hbin, scratch):
         return
     model = run_model(ctx, enc_ops)
     if model is not None:
-        dis = ctx.diff_streams('pbf-writer-bytes', [short(o, 400) for o in enc_ops], impl, model)
+        dis = ctx.diff_streams('pbf-writer-bytes', [short(o, 400) for o in enc_ops], [norm(x) for x in impl], model)
         if dis:
             i, op, a, b = dis[0]
             ctx.pbf_enc_dis = dis
@@ -465,6 +465,19 @@ def _run(ctx, rng, quick, hbin, scratch):
             if mdec is not None:
                 ctx.streams.setdefault('pbf-model-decodes-inflated-files', {'lines': 0, 'disagreements': 0})['lines'] += n
 
+    # ---- block accounting: size()/count() of the real PrimitiveBlock after every object vs the model (can_add decides on these)
+    est_idx = [i for i in range(len(cases)) if 0 < len(cases[i][2]) < 100]
+    est_ops = [case_line('est', cases[i][0].s(), cases[i][1], cases[i][2]) for i in est_idx]
+    ei = run_impl(ctx, hbin, scratch, est_ops)
+    em = run_model(ctx, est_ops)
+    if ei is not None and em is not None:
+        for op in est_ops:
+            ctx.note_case(op[:3000])
+        d5 = ctx.diff_streams('pbf-block-accounting', [short(o, 300) for o in est_ops], ei, em)
+        if d5:
+            ctx.violation('correspondence:pbf-block-accounting', 'PrimitiveBlock::size()/count() differ from the model (%d cases; first `%s`: impl=%s model=%s)'
+                          % (len(d5), short(d5[0][1], 200), short(d5[0][2], 200), short(d5[0][3], 200)), {'kind': 'broken-correspondence', 'first': [[short(str(z), 2000) for z in x] for x in d5[:3]]}, found_input=False)
+
     # ---- dedicated monitors for value-domain corners ---------------------------------------------
     # (1) changeset = 2^32-1 ("any uint32 changeset")
     corner = []
@@ -481,7 +494,7 @@ def _run(ctx, rng, quick, hbin, scratch):
     if cimpl is not None:
         cmodel = run_model(ctx, co_ops)
         if cmodel is not None:
-            d4 = ctx.diff_streams('pbf-writer-bytes-corners', [short(o, 300) for o in co_ops], cimpl, cmodel)
+            d4 = ctx.diff_streams('pbf-writer-bytes-corners', [short(o, 300) for o in co_ops], [norm(x) for x in cimpl], cmodel)
             if d4:
                 ctx.violation('correspondence:pbf-writer-bytes-corners', 'model encoder and real Writer differ on a corner case: `%s`' % short(d4[0][1]), {'kind': 'broken-correspondence'}, found_input=False)
         cback = run_impl(ctx, hbin, scratch, ['dec N1W1R1M1 ' + f for f in cimpl])
@@ -514,7 +527,8 @@ def _run(ctx, rng, quick, hbin, scratch):
         line = out[0]
         kv = dict(x.split('=', 1) for x in line.split()[1:] if '=' in x)
         name = {'w': 'ways-unique-tag-values', 'd': 'dense-nodes-many-tags', 'r': 'relations-unique-roles'}[kind]
-        ctx.count('big:%s:%s' % (name, 'over-32MiB' if int(kv.get('maxraw', 0)) > MAXB else 'within'))
+        ctx.count('big:%s:%s' % (name, 'writer-raised' if kv.get('write') != 'ok' else ('over-32MiB' if int(kv.get('maxraw', 0)) > MAXB else 'within')))
+        ctx.count('big:blobs=%s' % kv.get('blobs'))
         if kv.get('write') == 'ok' and (int(kv.get('maxraw', 0)) > MAXB or not kv.get('read', '').startswith('ok') or int(kv.get('objs', 0)) != n):
             ctx.violation('pbf-block-over-32MiB:' + name, 'the Writer reported success on %d objects (%s) but the file has a block of %s bytes (limit %d) and the Reader says: %s (%s objects read) [`%s` → %s]'
                           % (n, name, kv.get('maxraw'), MAXB, kv.get('read'), kv.get('objs'), op, line), {'kind': 'counterexample', 'op': op, 'result': line})
